@@ -6,6 +6,19 @@ import json, pathlib, re
 ROOT = pathlib.Path(__file__).resolve().parent.parent
 res = json.loads((ROOT / 'tools/selfcheck_results.json').read_text()) if (ROOT / 'tools/selfcheck_results.json').exists() else {}
 notes = json.loads((ROOT / 'tools/seed_notes.json').read_text()) if (ROOT / 'tools/seed_notes.json').exists() else {}
+def needs_text(d, m):
+    notes = (d / 'notes.md').read_text() if (d / 'notes.md').exists() else ''
+    flat = re.sub(r'\s+', ' ', notes)
+    mm = re.search(r'(?i)(needed to manifest|needs to manifest|need(?:s|ed)? (?:for|in order) to manifest|to manifest|manifests? only|breaks only|only shows|only manifests)\W*(.{20,260})', flat)
+    if mm:
+        t = mm.group(2)
+    else:
+        paras = [p for p in re.split(r'\n\s*\n|\n- ', notes) if p.strip() and not p.strip().startswith('#')]
+        t = re.sub(r'\s+', ' ', paras[0]) if paras else m.get('needs_to_manifest', '')
+    t = t.strip(' *:-`')
+    return t[:240].replace('|', '/')
+
+
 out = ['## 10. Detection: which checks catch which deliberately broken trees', '',
        'Two sources. **Seeded** changes were written by fresh sub-agents that were given only the text of one',
        'property and a scratch worktree (nothing from /verif); each was confirmed by me in a scratch worktree',
@@ -17,6 +30,10 @@ out = ['## 10. Detection: which checks catch which deliberately broken trees', '
        'the last column (the check was extended, never loosened).', '',
        '### Seeded changes (independent)', '',
        '| id | property | what the change needs to manifest | caught by | note |', '|---|---|---|---|---|']
+UNCAUGHT = {
+    'C05-b3': 'adjudicated: not a violation of the property as written (a point exactly on a grid line lies in the closure of both neighbouring cells; either is accepted, section 5). `VERIF_C05_TOUCH=lower` pins the documented convention and then reports it.',
+    'C10-a1': 'patch written against an earlier /repo HEAD no longer applies after later fix commits; it was caught (exit 1) at the HEAD it was written for (see meta.json)',
+}
 n_seed = n_caught = 0
 for d in sorted((ROOT / 'seeded').glob('*')):
     mf = d / 'meta.json'
@@ -26,9 +43,11 @@ for d in sorted((ROOT / 'seeded').glob('*')):
     n_seed += 1
     caught = m.get('caught_by', [])
     n_caught += bool(caught)
-    needs = re.sub(r'\s+', ' ', m.get('needs_to_manifest', ''))[:230].replace('|', '/')
+    needs = needs_text(d, m)
     note = notes.get(d.name, '')
-    out.append(f"| {d.name}{' †' if note else ''} | {m['property']} | {needs} | {', '.join(caught) if caught else '**not caught**'} | {note} |")
+    if not caught and not note:
+        note = UNCAUGHT.get(d.name, '')
+    out.append(f"| {d.name}{' †' if d.name in notes else ''} | {m['property']} | {needs} | {', '.join(caught) if caught else '**not caught**'} | {note} |")
 out += ['', f'{n_caught} of {n_seed} confirmed seeded changes are caught by the quick tier of the check of their own property.', '',
         '### Builder-written mutants', '', '| patch | property | exit | violation kinds (first three) |', '|---|---|---|---|']
 nm = nc = 0
